@@ -877,7 +877,13 @@ func c15GenHistory(rng *zv.Rand, nSets int, viaStart bool) *c15History {
 			if rng.Chance(12) && b.txset != 0 {
 				o.StoreFail = true
 			}
-			h.Ops = append(h.Ops, o)
+			// With the core window disabled an old block is inside for the listener / exchange (stored with the parity
+			// quadrant) and outside for the availability path, whose window is fixed (an archival node stores it without).
+			// Both views of one height on one store are outside the model (a height is stored once, one way): the
+			// availability path is not asked for old blocks in such histories.
+			if !(h.WinOff && !b.inWindow) {
+				h.Ops = append(h.Ops, o)
+			}
 		}
 		if !viaStart && rng.Chance(12) {
 			i := rng.Intn(nHeights)
